@@ -12,10 +12,10 @@ FLOAT_TOL = 1e-8
 STATS = G.STATS
 KIND = {'curve': 'c', 'surface': 's', 'volume': 'v'}
 PARTIAL = [
-    "A5.1 as coded (POINT branch of helpers.knot_insertion: curves and the iso-curves of surfaces) is now MODELLED literally (knotInsertionA51, Model/InsertA51.lean: allocation of ctrlpts_new / temp, the two copy loops, the temp initialisation, the insertion loop with its sequential in-place sweep and the two edge writes per pass, the final loop; run against the real helper called with explicit num / s / span by the streams ins-a51 / ins-pt, incl. s > 0, num > 1, num = 0, first / last span, unclamped knot vectors, s / span / u not belonging together) and PROVED equal, slot by slot, to the index-by-index model knotInsertion for every knot function, polygon, parameter, num >= 0, s and span k with p <= k and num + s <= p (knot_insertion_as_coded_eq_model; nothing assumed about the knots, alpha denominators may vanish), so shape preservation is a theorem about the loops as coded (insert_as_coded_preserves_curve_point, insert_as_coded_preserves_curve, insert_as_coded_net_length, insert_as_coded_surface_nets_eq). NOT covered: calls outside that guard (k < degree or num + s > degree: reachable only through explicit keyword arguments or check=False), where Python's negative indices wrap around and the transcription does not follow; the object-level theorems are still stated with knotInsertion (equal under the guard, which holds for every admissible request: span found by the search, num + s <= degree)",
+    "A5.1 as coded is MODELLED literally for BOTH branches of helpers.knot_insertion and PROVED equal to the index-form models: point branch (curves and the iso-curves of surfaces: knotInsertionA51, Model/InsertA51.lean, streams ins-a51 / ins-pt) and list-of-rows branch (what operations.insert_knot feeds for volumes: knotInsertionRowsA51, Model/InsertRowsA51.lean - same allocation / copy loops / temp initialisation / edge writes / final loop, and in the sweep the sequential loop `for idx in range(len(temp[i])): temp[i][idx][:] = ...` over the points of a row; streams ins-rows-a51 against the real helper called with rows, incl. s > 0, num > 1, num = 0, first / last span, unclamped knot vectors, s / span / u not belonging together; the streams also check that the caller's rows are left unchanged). knot_insertion_as_coded_eq_model / knot_insertion_rows_as_coded_eq_model: for every knot function, polygon / list of rows, parameter, num >= 0, s and span k with p <= k and num + s <= p the loops return, slot by slot (and point by point), what knotInsertion / knotInsertionRows return (one generic proof over the element type and the blend: Lemmas/A51Loops*.lean; nothing assumed about the knots, alpha denominators may vanish); knot_insertion_rows_as_coded_isocurve: every iso-curve of the loops on rows is the loops on that iso-curve. OBJECT LEVEL: insertKnotDirCoded / insertKnotCoded (Model/KnotOpsCoded.lean: knotInsertionA51 on every iso-curve of a curve / surface, ONE call of knotInsertionRowsA51 on the gathered rows of a volume; stream ins-coded against operations.insert_knot) are PROVED equal to insertKnotDir / insertKnot (insertKnotDir_as_coded_eq_model: degree + 1 <= size, and num + s <= degree when check=False; insertKnot_as_coded_eq_model_curve / _surface / _volume: well-formed object, every requested direction admissible or rejected by the multiplicity check), so shape preservation is a theorem about the loops as coded for curves (insert_as_coded_preserves_curve_point, insert_as_coded_preserves_curve), surfaces (insert_as_coded_preserves_surface) and volumes (insert_as_coded_preserves_volume). NOT covered: calls outside the guard (k < degree or num + s > degree: reachable only through explicit keyword arguments or check=False), where Python's negative indices wrap around and the transcriptions do not follow; rows in which the same point OBJECT occurs twice (deepcopy keeps the aliasing inside a row and the in-place blend would hit the point twice; operations.insert_knot never builds such rows: the points of a geometry are distinct lists) - the transcription is value-semantic (argued in Model/InsertRowsA51.lean: no object shared with the caller or between two slots of temp is ever mutated)",
     "object level (Props/C04.lean, insertKnot_preserves_surface / _volume, insert_call_sequence_preserves_surface / _volume): one insert_knot call with any subset of the directions of a surface or a volume, and any sequence of such calls, completes and preserves well-formedness, the domain and every evaluated point at every parameter of the domain - under the explicit hypothesis that every requested direction is admissible (DirReqOk: parameter in the half-open domain [U_p, U_n), the multiplicity s computed by find_multiplicity is a run ending at the span, r + s <= p; derivable from tolerance separation by insert_request_admissible); a direction rejected by the multiplicity check leaves the earlier directions applied and the points unchanged (insertKnot_partial_application_*). NOT covered by a theorem: a parameter outside the half-open domain of its direction (e.g. u = U_n), check=False with r + s > p, and curve objects at Shape level (curves are proved at helper level: insert_sequence_preserves - points unchanged on the closed domain AND the final state CurveWF with both domain ends unchanged; insert_net_length: r more points, each of the same dimension)",
     "rational objects: the theorems are about the homogeneous net (coordinatewise, weight coordinate included); the projection is C01/C09's",
-    "list-of-rows branch of helpers.knot_insertion (volumes): MODELLED (knotInsertionRows, index form like the point branch; gather / scatter volRows / volUnrows / mapVolRows with the index expressions of operations.insert_knot; streams ins-rows / ins-vol-rows against the real helper called with rows and against operations.insert_knot) and PROVED equal to the per-iso-curve model (knotInsertionRows_isocurve: no hypothesis; knotInsertionRows_is_transposed_knotInsertion; mapVolRows_insert_eq_mapVol; insertKnotVolRows_is_insertKnotDir), so the volume theorems are about what the rows branch computes. Not covered: ragged rows (rows of different lengths) beyond the iso-curve statement; the tie between the in-place loops on rows (temp[i][idx][:] = ...) and the index form is the correspondence",
+    "list-of-rows branch of helpers.knot_insertion (volumes), index form: knotInsertionRows (gather / scatter volRows / volUnrows / mapVolRows with the index expressions of operations.insert_knot; streams ins-rows / ins-vol-rows against the real helper called with rows and against operations.insert_knot) is PROVED equal to the per-iso-curve model (knotInsertionRows_isocurve: no hypothesis; knotInsertionRows_is_transposed_knotInsertion; mapVolRows_insert_eq_mapVol; insertKnotVolRows_is_insertKnotDir) and to the in-place loops as coded (knot_insertion_rows_as_coded_eq_model), so the volume theorems are about what the rows branch computes. Not covered: ragged rows (rows of different lengths: IndexError in the code) beyond the iso-curve statement",
     "guards stated as hypotheses (not used by the proofs, mirroring the code / driver): object-level insert_knot theorems (insertKnot_preserves_*, insertKnot_partial_application_*, insert_call_sequence_preserves_*) require params and num to have exactly one entry per parametric direction (the code raises otherwise; the model reads a missing entry as 'nothing requested'); knotInsertionRows_isocurve requires rectangular rows (ragged rows: IndexError in the code, [] padding in the model); insert_sequence_net_unique needs AllActive of the resulting knot vector (necessary)",
 ]
 
@@ -185,6 +185,37 @@ def gen(rng, tier):
         k = RO.span(kv, p, n_, u)
         G.count('rows_ins', (p, s, r))
         out.append(Case('ins-rows', RO.rows_line('rowsins', p, kv, R, fr(u), r, s, k), dict(p=p, kv=kv, R=R, u=u, r=r, s=s, k=k)))
+        # the same call against the LITERAL transcription of the rows branch (`knotInsertionRowsA51`)
+        out.append(Case('ins-rows-a51', RO.rows_line('rowsinsa51', p, kv, R, fr(u), r, s, k), dict(p=p, kv=kv, R=R, u=u, r=r, s=s, k=k)))
+    # A5.1 AS CODED ON ROWS, "free" calls: s / span / u NOT belonging together, num = 0, prior multiplicities, first and
+    # last span, unclamped knot vectors (pure index arithmetic: any s with num + s <= p, any span p <= k < len(rows))
+    for _ in range(60 if tier == 'quick' else 900):
+        p = rng.randint(1, 4)
+        kv, n_, R = RO.rand_rows(rng, p, allow_range=rng.random() < .3)
+        spans = [k for k in range(p, n_) if kv[k] < kv[k + 1]]
+        if rng.random() < .5:
+            interior = sorted(set(x for x in kv[p:n_] if kv[p] <= x < kv[n_] and RO.mult(kv, x) < p))
+            if interior and rng.random() < .6:
+                u = rng.choice(interior)
+            else:
+                k0 = rng.choice([spans[0], spans[-1]])
+                u = kv[k0] + (kv[k0 + 1] - kv[k0]) * F(rng.randint(1, 99), 100)
+            s = RO.mult(kv, u)
+            if s > p:
+                continue
+            k = RO.span(kv, p, n_, u)
+            r = rng.choice([0] + list(range(1, p - s + 1)) * 3) if p > s else 0
+            genuine = True
+        else:
+            k = rng.choice(spans + [spans[0], spans[-1]])
+            r = rng.randint(0, p)
+            s = rng.randint(0, p - r)
+            u = rng.choice([kv[k], kv[k] + (kv[k + 1] - kv[k]) * F(rng.randint(1, 99), 100), kv[0] - 1, kv[-1] + F(1, 3)])
+            genuine = False
+        G.count('rows_a51', (p, s, r, 'first' if k == p else ('last' if k == n_ - 1 else 'mid'), 'genuine' if genuine else 'free'))
+        data = dict(p=p, kv=kv, R=R, u=u, r=r, s=s, k=k, free=True)
+        out.append(Case('ins-rows-a51', RO.rows_line('rowsinsa51', p, kv, R, fr(u), r, s, k), data))
+        out.append(Case('ins-rows', RO.rows_line('rowsins', p, kv, R, fr(u), r, s, k), data))
     # one direction of operations.insert_knot on a volume against the gather / rows-branch / scatter model
     for _ in range(25 if tier == 'quick' else 300):
         d = S.rand_volume(rng, maxp=3, max_interior=2)
@@ -251,6 +282,11 @@ def gen(rng, tier):
         data = dict(shape=d, u=u, r=r, s=s, k=k, genuine=genuine)
         out.append(Case('ins-a51', "insa51 " + tail, data))
         out.append(Case('ins-pt', "inspt " + tail, data))
+    # every operations-level call once more against the object-level model built from the helper's loops AS CODED
+    # (`insertKnotCoded`: knotInsertionA51 on every iso-curve of a curve / surface, knotInsertionRowsA51 on cpt2d for a volume)
+    for c in [c for c in out if c.kind == 'ins-op']:
+        G.count('ins_coded', c.data['shape']['kind'])
+        out.append(Case('ins-coded', "insc" + c.line[3:], c.data, tags=c.tags))
     return out
 
 
@@ -308,7 +344,12 @@ def _apply(o, d, reqs, method):
 def _rows_call(c):
     from geomdl import helpers
     x = c.data
-    return RO.unq(helpers.knot_insertion(x['p'], qs(x['kv']), RO.qrows(x['R']), q(x['u']), num=x['r'], s=x['s'], span=x['k']))
+    rows = RO.qrows(x['R'])
+    Q = RO.unq(helpers.knot_insertion(x['p'], qs(x['kv']), rows, q(x['u']), num=x['r'], s=x['s'], span=x['k']))
+    if RO.unq(rows) != x['R']:
+        # the value-semantic transcription relies on it: no statement of the helper mutates an object of the caller
+        raise AssertionError("knot_insertion changed the rows it was called with")
+    return Q
 
 
 def _vol_rows(c):
@@ -324,14 +365,14 @@ def _vol_rows(c):
 def impl(c):
     if c.kind in ('ins-a51', 'ins-pt'):
         return show_pts(_a51_call(c))
-    if c.kind == 'ins-rows':
+    if c.kind in ('ins-rows', 'ins-rows-a51'):
         from core import show_pts2
         return show_pts2(_rows_call(c))
     if c.kind == 'ins-vol-rows':
         return show_shape(S.from_obj(_vol_rows(c)))
     d = c.data['shape']
     o = S.build(d)
-    _apply(o, d, c.data['reqs'], c.kind != 'ins-op')
+    _apply(o, d, c.data['reqs'], c.kind not in ('ins-op', 'ins-coded'))
     return show_shape(S.from_obj(o))
 
 
@@ -371,6 +412,8 @@ def _oracle_rows(c):
 def oracle(c):
     if c.kind in ('ins-a51', 'ins-pt'):
         return _oracle_a51(c)
+    if c.kind == 'ins-rows-a51':
+        return None          # the oracle runs on the twin 'ins-rows' case
     if c.kind == 'ins-rows':
         return _oracle_rows(c)
     if c.kind == 'ins-vol-rows':
@@ -392,6 +435,8 @@ def oracle(c):
         return None
     d = c.data['shape']
     reqs = c.data['reqs']
+    if c.kind == 'ins-coded':
+        return None          # the oracle runs on the twin 'ins-op' case
     method = c.kind != 'ins-op'
     o = S.build(d)
     before = S.from_obj(o)
